@@ -34,20 +34,25 @@ Current(tvs, t) ==
     IN  IF S = {} THEN NULL
         ELSE tvs[CHOOSE i \in S : \A j \in S : tvs[j][1] < tvs[i][1] \/ (tvs[j][1] = tvs[i][1] /\ j <= i)][2]
 
-InPeriod(cfg, date) == MatchRange(date, cfg.eff.s, cfg.eff.e)
+\* (the D-variants carry the named deviation of Calendar!MatchRangeD; dev = FALSE is the property)
+InPeriodD(dev, cfg, date) == MatchRangeD(dev, date, cfg.eff.s, cfg.eff.e)
+InPeriod(cfg, date) == InPeriodD(FALSE, cfg, date)
 
-PeriodInEffect(cfg, per, date) ==
-    IF per.kind = "cal" THEN InDateList(date, cfg.cals[per.id]) ELSE InCalendarEntry(date, per)
+PeriodInEffectD(dev, cfg, per, date) ==
+    IF per.kind = "cal" THEN InDateListD(dev, date, cfg.cals[per.id]) ELSE InCalendarEntryD(dev, date, per)
 
 \* the exceptions in force on a date (indices into cfg.exc)
-InForce(cfg, date) == {i \in 1..Len(cfg.exc) : PeriodInEffect(cfg, cfg.exc[i].period, date)}
+InForceD(dev, cfg, date) == {i \in 1..Len(cfg.exc) : PeriodInEffectD(dev, cfg, cfg.exc[i].period, date)}
+InForce(cfg, date) == InForceD(FALSE, cfg, date)
 
 \* The property leaves the order among exceptions of equal priority that are in force on the same day open;
 \* the value monitors are only applied to days on which this predicate holds.
 TieFree(cfg, date) == \A i, j \in InForce(cfg, date) : i # j => cfg.exc[i].prio # cfg.exc[j].prio
 
 \* everything about one day that does not depend on the time of day
-Plan(cfg, date) == [inp |-> InPeriod(cfg, date), force |-> InForce(cfg, date), wk |-> cfg.weekly[DayOfWeek(date)]]
+PlanD(dev, cfg, date) ==
+    [inp |-> InPeriodD(dev, cfg, date), force |-> InForceD(dev, cfg, date), wk |-> cfg.weekly[DayOfWeek(date)]]
+Plan(cfg, date) == PlanD(FALSE, cfg, date)
 
 \* exceptions in force whose current value is not NULL, and the one of them that wins
 Live(cfg, plan, t) == {i \in plan.force : Current(cfg.exc[i].tvs, t) # NULL}
@@ -98,15 +103,18 @@ BreakPoints(cfg) ==
     {0} \cup UNION {Times(cfg.exc[i].tvs) : i \in 1..Len(cfg.exc)} \cup UNION {Times(cfg.weekly[d]) : d \in 1..7}
 
 \* Value equals v at every instant of [<<date, from>>, b)     (fuel bounds the number of days walked)
-RECURSIVE StableDays(_, _, _, _, _, _)
-StableDays(cfg, v, date, from, b, fuel) ==
-    IF date = b[1]
-    THEN \A q \in BreakPoints(cfg) : (from <= q /\ q < b[2]) => Value(cfg, date, q) = v
-    ELSE /\ \A q \in BreakPoints(cfg) : from <= q => Value(cfg, date, q) = v
-         /\ fuel > 0
-         /\ StableDays(cfg, v, NextDay(date), 0, b, fuel - 1)
+RECURSIVE StableDays(_, _, _, _, _, _, _, _)
+StableDays(dev, cfg, bp, v, date, from, b, fuel) ==
+    LET plan == PlanD(dev, cfg, date)
+    IN  IF date = b[1]
+        THEN \A q \in bp : (from <= q /\ q < b[2]) => ValueP(cfg, plan, q) = v
+        ELSE /\ \A q \in bp : from <= q => ValueP(cfg, plan, q) = v
+             /\ fuel > 0
+             /\ StableDays(dev, cfg, bp, v, NextDay(date), 0, b, fuel - 1)
 
-StableUntil(cfg, a, b) == Later(b, a) => StableDays(cfg, Value(cfg, a[1], a[2]), a[1], a[2], b, 400)
+StableUntilD(dev, cfg, a, b) ==
+    Later(b, a) => StableDays(dev, cfg, BreakPoints(cfg), ValueP(cfg, PlanD(dev, cfg, a[1]), a[2]), a[1], a[2], b, 400)
+StableUntil(cfg, a, b) == StableUntilD(FALSE, cfg, a, b)
 
 ----------------------------------------------------------------------------
 (* The timer machine (LocalScheduleInterpreter as a OneShotTask): at creation and at every expiry of its deadline the   *)
